@@ -354,15 +354,27 @@ func NewMonitor(publisher Publisher, handler Handler) (kcache.Monitor, error) {
 			handler.OnInitialize(aobjs)
 		}).
 		OnCreate(func(obj metav1.Object) {
-			aobj, _ := adapter.adaptObject(obj)
+			aobj, err := adapter.adaptObject(obj)
+			if err != nil {
+				// not an object of this type: skip it
+				return
+			}
 			handler.OnCreate(aobj)
 		}).
 		OnUpdate(func(obj metav1.Object) {
-			aobj, _ := adapter.adaptObject(obj)
+			aobj, err := adapter.adaptObject(obj)
+			if err != nil {
+				// not an object of this type: skip it
+				return
+			}
 			handler.OnUpdate(aobj)
 		}).
 		OnDelete(func(obj metav1.Object) {
-			aobj, _ := adapter.adaptObject(obj)
+			aobj, err := adapter.adaptObject(obj)
+			if err != nil {
+				// not an object of this type: skip it
+				return
+			}
 			handler.OnDelete(aobj)
 		}).Create()
 
